@@ -54,10 +54,10 @@ pub fn cfg_plain() -> Cfg {
     Cfg::base()
 }
 /// address lists present AND every log-macro argument evaluated (log level trace, no event
-/// logger): verbosity must never change behaviour, so the second configuration of every sweep
-/// exercises it for free
+/// logger) AND the overflow-checked build: neither verbosity nor the arithmetic mode may change
+/// behaviour, so the second configuration of every sweep exercises both for free
 pub fn cfg_lists() -> Cfg {
-    Cfg::base().with_self(&corpus::self_ips()).with_deny(&corpus::deny_ips()).with_log(LoggerKind::None, Level::Trace)
+    Cfg::base().with_self(&corpus::self_ips()).with_deny(&corpus::deny_ips()).with_log(LoggerKind::None, Level::Trace).with_profile(Profile::Dev)
 }
 
 /// Run a stateless single-frame sweep judged only by the always-on model monitor.
